@@ -45,6 +45,7 @@ type lxGrammar struct {
 	scNames                           []string
 	tokenLine, tokenColumn, scanBytes bool
 	fold, nonBacktracking             bool
+	extraToken                        bool // a token without a rule in front of the others: action numbers and token numbers differ
 }
 
 func (g *lxGrammar) tm() string {
@@ -57,6 +58,9 @@ func (g *lxGrammar) tm() string {
 		fmt.Fprintf(&sb, "%%s %s;\n\n", strings.Join(g.scNames, ", "))
 	}
 	sb.WriteString("invalid_token:\n")
+	if g.extraToken {
+		sb.WriteString("error:\n")
+	}
 	for _, r := range g.rules {
 		if len(g.scNames) > 1 {
 			fmt.Fprintf(&sb, "<%s>\n", strings.Join(r.scs, ", "))
@@ -103,6 +107,13 @@ func lxGenGrammar(rng *rand.Rand, idx int) *lxGrammar {
 	g.scanBytes = rng.Intn(3) == 0
 	g.fold = rng.Intn(4) == 0
 	g.nonBacktracking = rng.Intn(6) == 0
+	// every eighth grammar: one rule per token and no rule code, with backtracking (the compiler then stores token
+	// numbers instead of rule numbers in the tables, checkpoints included)
+	plain := idx%8 == 7
+	if plain {
+		g.nonBacktracking = false
+	}
+	g.extraToken = plain || rng.Intn(3) == 0
 	if rng.Intn(3) == 0 {
 		g.scNames = append(g.scNames, "other")
 	}
@@ -118,7 +129,12 @@ func lxGenGrammar(rng *rand.Rand, idx int) *lxGrammar {
 		}
 		g.rules = append(g.rules, r)
 	}
-	add(lxRule{name: "space", pattern: `[ \t\n]+`, attr: "(space)", scs: g.scNames})
+	if rng.Intn(4) == 0 {
+		// no rule matches a newline: it is an invalid token, and the line count has to follow all the same
+		add(lxRule{name: "space", pattern: `[ \t]+`, attr: "(space)", scs: g.scNames})
+	} else {
+		add(lxRule{name: "space", pattern: `[ \t\n]+`, attr: "(space)", scs: g.scNames})
+	}
 	idPat := `[a-z][a-z0-9]*`
 	kws := []string{"if", "in", "int", "a", "ab0"}
 	if rng.Intn(2) == 0 {
@@ -129,7 +145,7 @@ func lxGenGrammar(rng *rand.Rand, idx int) *lxGrammar {
 			kws = []string{"if", "é", "aé", "in"}
 		}
 	}
-	useClass := rng.Intn(4) > 0
+	useClass := rng.Intn(4) > 0 && !plain
 	if useClass {
 		add(lxRule{name: "id", pattern: idPat, attr: "(class)", scs: g.scNames})
 		rng.Shuffle(len(kws), func(i, j int) { kws[i], kws[j] = kws[j], kws[i] })
@@ -139,13 +155,13 @@ func lxGenGrammar(rng *rand.Rand, idx int) *lxGrammar {
 	} else if rng.Intn(2) == 0 {
 		add(lxRule{name: "id", pattern: idPat})
 	}
-	if rng.Intn(2) == 0 {
+	if rng.Intn(2) == 0 || plain {
 		code := ""
-		if rng.Intn(2) == 0 {
+		if rng.Intn(2) == 0 && !plain {
 			code = "{ $$ = 1 }" // forces the rule -> token table
 		}
 		add(lxRule{name: "num", pattern: `[0-9]+`, code: code})
-		if rng.Intn(2) == 0 && !g.nonBacktracking {
+		if (rng.Intn(2) == 0 || plain) && !g.nonBacktracking {
 			add(lxRule{name: "float", pattern: `[0-9]+\.[0-9]+(e[0-9]+)?`})
 		}
 	}
@@ -178,6 +194,9 @@ func lxGenGrammar(rng *rand.Rand, idx int) *lxGrammar {
 	if rng.Intn(3) == 0 && !g.scanBytes {
 		add(lxRule{name: "uni", pattern: `[\p{Lu}\x{1F600}]+`})
 	}
+	if rng.Intn(3) == 0 && !g.scanBytes {
+		add(lxRule{name: "han", pattern: `[\x{4e00}-\x{9fff}\x{ac00}-\x{d7a3}]+`})
+	}
 	if rng.Intn(4) == 0 {
 		pg := bytePatGen(rng, false)
 		pg.alphabet = []string{"x", "y", "-", `\.`, "0"}
@@ -197,6 +216,7 @@ func lxGenGrammar(rng *rand.Rand, idx int) *lxGrammar {
 func lxText(rng *rand.Rand, g *lxGrammar) []byte {
 	words := []string{"if", "in", "int", "a", "ab0", "x", "é", "жa", "aж", "abc", "12", "1.5", "1.", "1.5e", "1.5e3", "+", "++", "+=", "+==", "\"s\"", "\"s", "//c", " ", "\n", "\t", "\n\n",
 		"É", "IF", "😀", "Ж", "_", "x\n", "xx", "-", ".", "y0",
+		"漢", "字", "\u4dff", "\ua000", "漢\ua000", "\u9fff", "\uabff", "\ud7a4", "한", "\U0001F5FF", "\U0001F601", "з", "è", "×",
 		"~", "^", "~=", "^=", "~=>", "^=>", "^=1", "/", "/*c*/", "/* c\n*/", "/*", "/**/", "/* a */ ", "#"}
 	var b []byte
 	n := rng.Intn(9)
